@@ -30,8 +30,21 @@ def check_program(L: harness.Loaded, prog: Dict[str, Any], part: Part) -> None:
         if not RC.is_injective(d["cm"], d["dct"]["base"], d["phys"]):
             part.count("non_injective_compu_methods_skipped")
             return
+    def int_keyed_mux(v: Any) -> bool:
+        if isinstance(v, tuple) and len(v) == 2 and isinstance(v[0], int) and not isinstance(v[0], bool):
+            return True
+        if isinstance(v, dict):
+            return any(int_keyed_mux(x) for x in v.values())
+        if isinstance(v, (list, tuple)):
+            return any(int_keyed_mux(x) for x in v)
+        return False
+
     done = set()
     for values in prog["assign"]:
+        if int_keyed_mux(values):
+            # a MUX key that is not the canonical one of its case (or selects the default case) is not recoverable
+            # from the decoded (case name, content) pair: such PDUs are not 'in canonical form'
+            continue
         try:
             pdu, ref_out, e = L.interp.encode(prog["pid"], values, prog.get("request"))
         except (refodx.Reject, refodx.DontCare):
@@ -57,7 +70,8 @@ def check_program(L: harness.Loaded, prog: Dict[str, Any], part: Part) -> None:
         elif pdu2 != pdu:
             part.violation(f"C03/{tag}/re-encoding-differs", case, f"{pdu.hex()} -> {show(dec)} -> {pdu2.hex()}")
     # through the layer, for requests that start with a constant (needed for dispatch)
-    if prog.get("kind", "REQUEST") == "REQUEST" and prog["params"] and prog["params"][0]["t"] == "CODED-CONST" and prog["tags"][0] == "prog":
+    if prog.get("kind", "REQUEST") == "REQUEST" and prog["params"] and prog["params"][0]["t"] == "CODED-CONST" and prog["tags"][0] == "prog" and \
+            prog["params"][0].get("byte") in (None, 0):
         for values in prog["assign"][:1]:
             try:
                 pdu, _, e = L.interp.encode(prog["pid"], values)
